@@ -51,6 +51,18 @@ CHECKS = {
    technique="set/multiset oracle over complete iterations (embedded and cluster client iterators, raw DM.SCAN cursor loops on primaries and on backups with RC) against a model of shaped stores; termination bounds; hook-counted server-side scan calls",
    text="Seeded programs shape 0-2000-key stores on real clusters (1-3 members, ReplicaCount 1-2, partition counts 1-31, table sizes 300 B-1 MiB): puts in five entry-size classes, overwrites and deletes of blocks and scattered keys, compaction to completion or mid-way (gaps in table numbering, recycled tables), re-puts, short expiries. Each store is iterated to completion by EmbeddedDMap.Scan, ClusterDMap.Scan, raw DM.SCAN cursor loops per partition and owner, and the same with RC on backup owners, for COUNT in {1,2,3,10,100,10^6, default, <=0} and MATCH classes none/all/some/no match/one block. Yielded multisets are compared with the model: every stable key at least once (exactly once through the client iterators), no deleted or never-stored key, MATCH exactly the matching present keys, termination within call/round-trip bounds. Join batches repeat this while a partition lists two owners and after balancing; the thorough tier also scans under concurrent churn on a disjoint key set.",
    note="Expired-but-not-evicted keys and churn keys are not judged (the statement is silent); rawrc completeness is judged on stable clusters only; membership changes during an iteration are out of scope."),
+ "C10": dict(category="exploration", design="DESIGN.md §3 C10",
+   technique="census-after-every-Put monitor (white-box per-fragment key count / in-use bytes against the equal-share bound, immediate read-back of the written key), idle-window monitor with margins and stall detection",
+   text="LRU: per-DMap and global configurations over MaxKeys {1,3,P-1,P,10P}, MaxInuse, both together, LRUSamples {1,2,5,20}, P {3,7,31}, 1-2 members, uniform and heavily skewed key distributions, inserts mixed with overwrites, all entry paths: after EVERY Put the Put must not have failed, an immediate Get must return the bytes just written, and a white-box census of every owned primary fragment must respect max(1, floor(MaxKeys/owned)) keys and MaxInuse/owned + one entry bytes (4 concurrent writers: bounds at barriers). Idle: a touched key set refreshed every window/3 through all paths must never disappear and an untouched set must be gone within window + 5 s, for global, custom, custom-over-global configurations and a cold-keys-in-an-older-table layout.",
+   note="'Eventually' is restated as window + 5 s with eager eviction workers; cases with a scheduling stall, a transport error or an unstable membership fingerprint are inconclusive; backup copies are judged by C04/C20."),
+ "C14": dict(category="exploration", design="DESIGN.md §3 C14",
+   technique="reference-model monitor over seeded subscribe/psubscribe/unsubscribe/publish/disconnect scripts on raw RESP and Go PubSub connections; ordered per-connection delivery logs with in-stream markers and PING fences; PUBSUB introspection compared with the model",
+   text="2400 (quick) / 24600 (thorough) scripts of 20-60 steps over 2-8 subscriber connections on 1-3 members (75% raw RESP, 25% Go PubSub clients), channels {a,ab,b.1,b.2} and patterns {a*,b.?,*,zz*,a}, 1-4 concurrent publishers through any member, optional subscription churn and disconnects. Every subscription acknowledged before a publish was sent must receive it exactly once, in publisher order, with the right channel and payload; nothing may arrive through a non-matching, never-made or already unsubscribed subscription; PUBLISH's return value must equal the deliveries observed; PUBSUB CHANNELS (with and without glob) / NUMSUB / NUMPAT of every member must equal the model at quiescent points; after a disconnect the member's bookkeeping must reach the model within 2 s.",
+   note="Order is judged on the connection's own stream (markers, PING fences), never on wall-clock time; subscriptions in flight during churn may receive 0 or 1 copy; membership flaps make a script inconclusive; the thorough tier runs 600 scripts under the race detector."),
+ "C17": dict(category="exploration", design="DESIGN.md §3 C17",
+   technique="round-trip monitor with per-type generators: typed accessor and Scan on every path, backup copy (GETENTRY RC + white-box), after migration to a joined member; rejection monitor with entry census and neighbour re-verification",
+   text="Generated values of every supported type (all integer widths at their extremes, float32/64 incl. ±0, ±Inf, NaN, denormals, 17-digit values, bool, strings and byte slices with NUL/CRLF/RESP-looking content, 64 KiB and sizes around the table size, time.Time with zones/nanoseconds/extreme years, durations, a BinaryMarshaler type) under keys of length 0..255 (binary, CR/LF, spaces) are written through embedded owner / non-owner / cluster client on a 2-member ReplicaCount=2 cluster (table size x WriteQuorum), read back through every path with the typed accessor and Scan, compared on the backup copy, and again from every member after a third member joined and the partitions were balanced. Keys of 256+ bytes and entries that cannot fit a table must be rejected with the documented errors on every path with nothing stored on any member (census), and all previously stored neighbours re-verified.",
+   note="Round trip through olric's own encoder/decoder (a consistently wrong pair would go unseen); years outside 0..9999, nil values and async replication are out of scope; loss-type observations during a membership flap are inconclusive."),
 }
 
 NOT_BUILT_REASON = "check not built yet (work in progress in this session); not claimed until its monitor is silent on the unchanged tree"
